@@ -86,10 +86,14 @@ type vScenarioC12 struct {
 
 // vStepC12 is one step of a directed schedule: let virtual time pass, or wait until
 // process Proc has an operation of kind Kind parked and release it.
+// The operation must arrive within Within of virtual time, otherwise the rest of
+// the script is abandoned (the code under test no longer behaves as the probe expects)
+// and the drawn-choice scheduler takes over.
 type vStepC12 struct {
 	Advance time.Duration
 	Proc    int
 	Kind    string
+	Within  time.Duration
 }
 
 var (
@@ -755,11 +759,12 @@ func (w *vWorldC12) abort(why string) {
 
 // runScript executes the directed part of a schedule.
 func (w *vWorldC12) runScript(nprocs int) {
-	for _, st := range w.sc.Script {
+	for i, st := range w.sc.Script {
 		if st.Advance > 0 {
 			time.Sleep(st.Advance)
 			continue
 		}
+		deadline := time.Now().Add(st.Within)
 		for {
 			synctest.Wait()
 			w.mu.Lock()
@@ -770,15 +775,28 @@ func (w *vWorldC12) runScript(nprocs int) {
 					break
 				}
 			}
-			stop := w.violation != "" || w.done == nprocs
+			left := time.Until(deadline)
+			stop := w.violation != "" || w.done == nprocs || (found == nil && left <= 0)
 			if found != nil && !stop {
 				w.releaseOp(found)
 			}
+			if found == nil && stop && w.violation == "" {
+				w.classes["script-abandoned"] = true
+				w.logf("script abandoned at step %d (%+v)", i, st)
+			}
 			w.mu.Unlock()
-			if found != nil || stop {
+			if stop {
+				return
+			}
+			if found != nil {
 				break
 			}
-			<-w.wake // virtual time advances until something arrives
+			timer := time.NewTimer(left)
+			select {
+			case <-w.wake:
+				timer.Stop()
+			case <-timer.C:
+			}
 		}
 	}
 }
@@ -968,17 +986,26 @@ func TestVerifC12RefreshListingGapProbe(t *testing.T) {
 		Lazy:    []int{0, 0},
 		Choices: []int{0},
 		Script: []vStepC12{
-			{Proc: 0, Kind: "list"}, {Proc: 0, Kind: "save"}, {Proc: 0, Kind: "list"}, // process 0 acquires (+0.2s)
-			{Proc: 0, Kind: "save"}, {Proc: 0, Kind: "remove"}, // its refresh at +5m0.2s
-			{Proc: 1, Kind: "list"},                            // first check of process 1 at +5m0.25s
-			{Advance: 4*time.Minute + 59*time.Second + 750*ms}, // its create is stalled until +10m0s
-			{Proc: 1, Kind: "save"},                            // ... re-check arrives at +10m0.2s
-			{Proc: 0, Kind: "save"}, {Proc: 0, Kind: "remove"}, // refresh of process 0 at +10m0.2s
-			{Proc: 1, Kind: "list"}, // re-check of process 1
+			// process 0 acquires (+0.2s)
+			{Proc: 0, Kind: "list"}, {Proc: 0, Kind: "save"}, {Proc: 0, Kind: "list", Within: time.Second},
+			// its refresh at +5m0.2s: replacement saved, old file removed at once
+			{Proc: 0, Kind: "save", Within: 6 * time.Minute}, {Proc: 0, Kind: "remove"},
+			// first check of process 1 at +5m0.25s
+			{Proc: 1, Kind: "list", Within: time.Second},
+			// its create is stalled until +10m0s, the re-check then arrives at +10m0.2s
+			{Advance: 4*time.Minute + 59*time.Second + 750*ms},
+			{Proc: 1, Kind: "save"},
+			// refresh of process 0 at +10m0.2s
+			{Proc: 0, Kind: "save", Within: time.Second}, {Proc: 0, Kind: "remove"},
+			// re-check of process 1
+			{Proc: 1, Kind: "list"},
 		},
 	}
 	w := runScenarioC12(t, &sc)
 	cls := "probe:refresh-listing-gap:no-violation"
+	if w.classes["script-abandoned"] {
+		cls = "probe:refresh-listing-gap:schedule-no-longer-possible"
+	}
 	if w.violation != "" {
 		cls = "probe:refresh-listing-gap:violation"
 	}
